@@ -21,8 +21,8 @@ CONSTANTS LinDoms,   \* set of <<a, b>> integer mantissa domains, a < b
           LogBases,
           Maxes,     \* values of TickOptions.Max
           Limits     \* set of <<MinLevel, MaxLevel>>; <<0,0>> = no limits
-VARIABLES kind, dom, opt
-vars == <<kind, dom, opt>>
+VARIABLES kind, dom, opt, done
+vars == <<kind, dom, opt, done>>
 Null == [null |-> TRUE]
 
 RECURSIVE IPow(_,_)
@@ -87,26 +87,27 @@ DigitTicks(B, d) == {t \in (1..(B - 1)) \X ((d.e1 - 2)..(d.e2 + 2)) :
                         /\ LogCmp(B, t[1], t[2], d.m2[1], d.m2[2], d.e2) <= 0}
 
 -----------------------------------------------------------------------------
-Init == kind \in {"lin", "log"} /\ dom = Null /\ opt = Null
+Init == kind \in {"lin", "log"} /\ dom = Null /\ opt = Null /\ done = FALSE
 ChooseDom == /\ dom = Null
              /\ \/ kind = "lin" /\ \E ab \in LinDoms, b \in LinBases, s \in Scales, sg \in {-1, 1}, rev \in {FALSE, TRUE} :
                       dom' = [a |-> ab[1], b |-> ab[2], base |-> b, s |-> sg * s, rev |-> rev]
                 \/ kind = "log" /\ \E d \in LogDoms, b \in LogBases : dom' = [d |-> d, base |-> b]
-             /\ UNCHANGED <<kind, opt>>
+             /\ UNCHANGED <<kind, opt, done>>
 ChooseOpt == /\ dom # Null /\ opt = Null
              /\ \E mx \in Maxes, lim \in Limits : opt' = [max |-> mx, lim |-> lim]
-             /\ UNCHANGED <<kind, dom>>
-Next == ChooseDom \/ ChooseOpt
+             /\ UNCHANGED <<kind, dom, done>>
+Finish == opt # Null /\ ~done /\ done' = TRUE /\ UNCHANGED <<kind, dom, opt>>     \* evaluation step shared by the workers
+Next == ChooseDom \/ ChooseOpt \/ Finish
 Spec == Init /\ [][Next]_vars
 
 LinOK == (kind = "lin" /\ dom # Null) => Nested(dom.base, dom.a, dom.b)
-LevelsOK == (kind = "lin" /\ opt # Null) =>
+LevelsOK == (kind = "lin" /\ done) =>
    LET L == RealLevel(dom.base, dom.a, dom.b, dom.s, opt.max, opt.lim) IN
    L # -9999 => /\ Count(dom.base, dom.a, dom.b, L - 2 * dom.s) <= opt.max
                 /\ MajorsInMinors(dom.base, dom.a, dom.b, L - 2 * dom.s)
 
 Levels == -3..5
-Emit == opt # Null =>
+Emit == done =>
   IF kind = "lin"
   THEN LET L == RealLevel(dom.base, dom.a, dom.b, dom.s, opt.max, opt.lim)  ml == L - 2 * dom.s IN
        PrintT(ToJson([kind |-> "lin", base |-> dom.base, a |-> dom.a, b |-> dom.b, s |-> dom.s, rev |-> dom.rev,
